@@ -542,6 +542,8 @@ def sql_param(ex, v):
         return ("blob", v.id)
     if isinstance(v, Bool):
         return ("bool", v.t)
+    if isinstance(v, Seq):
+        return ("blob", z3.BitVecVal(0, 32))     # byte vector bound to an unmodelled BLOB column (options)
     raise Unsupported(f"SQL parameter {v!r}")
 
 
@@ -929,3 +931,115 @@ def _opt_eq(ex, c):
     if isinstance(x, BV) and isinstance(y, BV):
         return Bool(x.t == y.t)
     raise Unsupported("Option eq on non-integers")
+
+
+# ------------------------------------------------------------------ maps with concrete keys (DHCP option tables)
+class KMap(Opaque):
+    """HashMap whose keys are concrete integers (DhcpOption codes): ordered dict key -> Cell(value)"""
+
+    def __init__(self):
+        Opaque.__init__(self, "KMap")
+        self.d = {}
+
+
+def key_of(ex, k):
+    k = deref(ex, k)
+    if isinstance(k, Adt) and len(k.fields) == 1:
+        k = k.fields[0]
+    v = z3.simplify(k.t)
+    if not z3.is_bv_value(v):
+        raise Unsupported("symbolic map key")
+    return v.as_long()
+
+
+@summary("<HashMap as Default>::default", "HashMap::new")
+def _hm_new(ex, c):
+    return KMap()
+
+
+@summary("HashMap::insert")
+def _hm_insert(ex, c):
+    m = deref(ex, c.args[0])
+    if not isinstance(m, KMap):
+        raise Unsupported("HashMap::insert on a non-concrete-key map")
+    k = key_of(ex, c.args[1])
+    old = m.d.get(k)
+    m.d[k] = Cell(c.args[2])
+    m.keyobj = getattr(m, "keyobj", {})
+    m.keyobj[k] = deref(ex, c.args[1])
+    return some(old.v) if old is not None else NONE()
+
+
+@summary("HashMap::contains_key")
+def _hm_contains(ex, c):
+    m = deref(ex, c.args[0])
+    if isinstance(m, KMap):
+        return Bool(key_of(ex, c.args[1]) in m.d)
+    raise Unsupported("contains_key on a non-concrete-key map")
+
+
+@summary("<&HashMap as IntoIterator>::into_iter", "<HashMap as IntoIterator>::into_iter", "HashMap::iter")
+def _hm_iter(ex, c):
+    m = deref(ex, c.args[0])
+    if not isinstance(m, KMap):
+        raise Unsupported("iteration over a non-concrete-key map")
+    return Opaque("Iter", items=[Tup([Ref(Cell(m.keyobj[k])), Ref(cell)]) for k, cell in m.d.items()])
+
+
+@summary("std::slice::to_vec", "core::slice::to_vec", "alloc::slice::to_vec", "<[T]>::to_vec")
+def _to_vec(ex, c):
+    v = deref(ex, c.args[0])
+    if isinstance(v, Seq):
+        return Seq(list(v.items))
+    return v
+
+
+@summary("Vec::push")
+def _vec_push(ex, c):
+    deref(ex, c.args[0]).items.append(c.args[1])
+    return UNIT
+
+
+@summary("Ipv4Addr::octets")
+def _octets(ex, c):
+    ip = deref(ex, c.args[0]).fields[0].t
+    return Seq([BV(z3.Extract(31 - 8 * i, 24 - 8 * i, ip)) for i in range(4)], "array")
+
+
+@summary("core::num::to_be_bytes")
+def _to_be(ex, c):
+    v = c.args[0]
+    n = v.width // 8
+    return Seq([BV(z3.Extract(v.width - 1 - 8 * i, v.width - 8 - 8 * i, v.t)) for i in range(n)], "array")
+
+
+@summary("Ipv4Addr::is_unspecified")
+def _is_unspec(ex, c):
+    return Bool(deref(ex, c.args[0]).fields[0].t == 0)
+
+
+@summary("std::net::Ipv4Addr::UNSPECIFIED", "Ipv4Addr::UNSPECIFIED")
+def _unspec(ex, c):
+    return Adt("Ipv4Addr", None, [BV(z3.BitVecVal(0, 32))])
+
+
+@summary("<Option as Default>::default")
+def _opt_default(ex, c):
+    return NONE()
+
+
+@summary("<T as Serialise>::serialise")
+def _dyn_serialise(ex, c):
+    """call inside a generic body (`T` is not substituted in unmonomorphised MIR): dispatch on the runtime value"""
+    v = deref(ex, c.args[0])
+    if isinstance(v, BV):
+        want = {8: "u8", 16: "u16", 32: "i32" if v.signed else "u32"}[v.width]
+    elif isinstance(v, Adt):
+        want = v.ty.split("::")[-1]
+    else:
+        raise Unsupported(f"serialise of {v!r}")
+    cands = [f for f in ex.prog.by_short.get("serialise", []) if f.nparams == 2 and base_type_name(f.param_types.get(1, "")) == want
+             and "dhcppkt" in f.name]
+    if len(cands) != 1:
+        raise Unsupported(f"Serialise impl for {want}: {[f.name for f in cands]}")
+    return ex.call_fn(cands[0], c.args)
